@@ -115,6 +115,7 @@ Proof.
   - destruct (coll_id s coll); [|exact Hcov]. destruct (existsb _ _); exact Hcov.
   - destruct (coll_id s coll); [|exact Hcov]. destruct (filter _ _); exact Hcov.
   - apply min_exp_covers.
+  - exact Hcov.
 Qed.
 
 Fixpoint next_final (s : store) (next : N) (steps : list (sctx * sop)) : store * N :=
